@@ -828,12 +828,18 @@ func (in *inliner) expand(pk *packages.Package, file *ast.File, st *site, ownerD
 		}
 	}
 	gsig := sig
+	// the calling function is generic itself: the callee's type parameters
+	// cannot be local aliases there (an alias of a type parameter is not
+	// allowed, and the names may coincide); they are written as the type
+	// arguments instead
+	ownerGeneric := false
+	tpSub := map[*types.TypeName]string{}
 	if sig.TypeParams().Len() > 0 {
 		if st.inst == nil || st.targs == nil || st.targs.Len() != sig.TypeParams().Len() {
 			return fail("generic callee without a recorded instantiation")
 		}
 		if ownerDecl.Type.TypeParams != nil && len(ownerDecl.Type.TypeParams.List) > 0 {
-			return fail("generic callee inside a generic function")
+			ownerGeneric = true
 		}
 		if ownerDecl.Recv != nil && len(ownerDecl.Recv.List) == 1 {
 			rt := ownerDecl.Recv.List[0].Type
@@ -842,7 +848,7 @@ func (in *inliner) expand(pk *packages.Package, file *ast.File, st *site, ownerD
 			}
 			switch rt.(type) {
 			case *ast.IndexExpr, *ast.IndexListExpr:
-				return fail("generic callee inside a method of a generic type")
+				ownerGeneric = true
 			}
 		}
 		sig = st.inst
@@ -1170,6 +1176,20 @@ func (in *inliner) expand(pk *packages.Package, file *ast.File, st *site, ownerD
 	// a generic callee: its type parameters are local aliases of the type
 	// arguments of this call
 	for i := 0; i < gsig.TypeParams().Len(); i++ {
+		if ownerGeneric {
+			if tp, isTP := st.targs.At(i).(*types.TypeParam); isTP {
+				tpSub[gsig.TypeParams().At(i).Obj()] = tp.Obj().Name()
+				continue
+			}
+			te, ok := typeExpr(st.targs.At(i))
+			if !ok {
+				return fail("a type argument cannot be written in the calling file")
+			}
+			name := fmt.Sprintf("%stp%d", prefix, i)
+			pre = append(pre, &ast.DeclStmt{Decl: &ast.GenDecl{Tok: token.TYPE, Specs: []ast.Spec{&ast.TypeSpec{Name: ast.NewIdent(name), Assign: 1, Type: te}}}})
+			tpSub[gsig.TypeParams().At(i).Obj()] = name
+			continue
+		}
 		te, ok := typeExpr(st.targs.At(i))
 		if !ok {
 			return fail("a type argument cannot be written in the calling file")
@@ -1215,6 +1235,12 @@ func (in *inliner) expand(pk *packages.Package, file *ast.File, st *site, ownerD
 				cp.Name = ren(cp.Name)
 			}
 			return
+		}
+		if tn, _ := obj.(*types.TypeName); tn != nil {
+			if sub, ok := tpSub[tn]; ok {
+				cp.Name = sub
+				return
+			}
 		}
 		if v, _ := obj.(*types.Var); v != nil {
 			if fresh, ok := litParam[v]; ok {
